@@ -50,7 +50,7 @@ func randWriteOpts(r *rand.Rand) writeOpts {
 	return writeOpts{
 		viaFile: r.Intn(4) == 0,
 		outFile: r.Intn(4) == 0,
-		style:   model.YAMLStyle{PlainNumbers: r.Intn(2) == 0, FlowValues: r.Intn(3) == 0, JSON: r.Intn(8) == 0},
+		style:   model.YAMLStyle{PlainNumbers: r.Intn(2) == 0, FlowValues: r.Intn(3) == 0, JSON: r.Intn(8) == 0, ZeroPad: r.Intn(5) == 0},
 	}
 }
 
